@@ -6,6 +6,7 @@ import AnyDB.Model.Vec
 import Driver.RawdbProto
 import Driver.VecProto
 import Driver.ComputeProto
+import Driver.CodecProto
 open AnyDB
 
 partial def loopWith {σ : Type} (h : IO.FS.Stream) (out : IO.FS.Stream) (handle : σ → String → σ × String) (s : σ) : IO Unit := do
@@ -22,4 +23,5 @@ def main (args : List String) : IO UInt32 := do
   | ["rawdb"] => loopWith stdin stdout RawdbProto.handle Db.init; return 0
   | ["vec"] => loopWith stdin stdout VecProto.handle (VecM.V.init .raw 8 0); return 0
   | ["compute"] => loopWith stdin stdout ComputeProto.handle { m := "", w := 0, f := 0 }; return 0
+  | ["codec"] => loopWith stdin stdout CodecProto.handle (); return 0
   | _ => IO.eprintln "usage: anydb_driver <engine>"; return 2
